@@ -453,9 +453,57 @@ func (g *fgen) literalOnly() {
 		g.w("%sreturn %s", ind, strings.Join(es, ", "))
 	}
 	g.w("func %s(n int) (%s) {", name, strings.Join(typs, ", "))
-	k := 1 + g.r.Intn(3)
+	k := 1 + g.r.Intn(4)
 	for j := 0; j < k; j++ {
-		switch g.r.Intn(4) {
+		switch g.r.Intn(14) {
+		case 4:
+			// labeled loop, return inside, the label is used
+			g.w("\touter%d:\n\tfor i := 0; i < n; i++ {\n\t\tfor k := 0; k < i; k++ {\n\t\t\tif k == %d {", j, j)
+			ret("\t\t\t\t")
+			g.w("\t\t\t}\n\t\t\tif k > 100 {\n\t\t\t\tbreak outer%d\n\t\t\t}\n\t\t}\n\t}", j)
+		case 5:
+			// labeled switch
+			g.w("\tsw%d:\n\tswitch {\n\tcase n > %d:\n\t\tif n > 1000 {\n\t\t\tbreak sw%d\n\t\t}", j, j, j)
+			ret("\t\t")
+			g.w("\t}")
+		case 6:
+			// select
+			g.w("\t{\n\t\tch := make(chan int, 1)\n\t\tselect {\n\t\tcase v := <-ch:\n\t\t\t_ = v")
+			ret("\t\t\t")
+			g.w("\t\tdefault:\n\t\t}\n\t}")
+		case 7:
+			// type switch
+			g.w("\tswitch x := any(n).(type) {\n\tcase string:\n\t\t_ = x")
+			ret("\t\t")
+			g.w("\tcase int:\n\t\t_ = x\n\t}")
+		case 8:
+			// range loop + else branch
+			g.w("\tfor _, v := range []int{1, 2, 3} {\n\t\tif v == n {\n\t\t\tcontinue\n\t\t} else if v > n+%d {", j)
+			ret("\t\t\t")
+			g.w("\t\t}\n\t}")
+		case 9:
+			// bare block and if with an init statement, else branch
+			g.w("\t{\n\t\tif m := n * 2; m == %d {\n\t\t\t_ = m\n\t\t} else {", j)
+			ret("\t\t\t")
+			g.w("\t\t}\n\t}")
+		case 10:
+			// goto target
+			g.w("\tif n == -%d {\n\t\tgoto done%d\n\t}\n\tif n == %d {", j+1, j, j+500)
+			ret("\t\t")
+			g.w("\t}\ndone%d:\n\tif n == %d {", j, j+700)
+			ret("\t\t")
+			g.w("\t}")
+		case 11:
+			// deferred and go closures with their own returns: must be ignored
+			g.w("\tdefer func() int {\n\t\treturn 998\n\t}()\n\tgo func() (string, error) {\n\t\treturn \"goroutine\", nil\n\t}()")
+		case 12:
+			// switch with init and fallthrough
+			g.w("\tswitch m := n %% 3; m {\n\tcase 0:\n\t\tfallthrough\n\tcase 1:")
+			ret("\t\t")
+			g.w("\t}")
+		case 13:
+			// closure assigned and called: its returns are not this function's
+			g.w("\tf%d := func(a int) (bool, int) {\n\t\tif a > 0 {\n\t\t\treturn true, 997\n\t\t}\n\t\treturn false, 996\n\t}\n\t_, _ = f%d(n)", j, j)
 		case 0:
 			g.w("\tif n == %d {", j)
 			ret("\t\t")
